@@ -1,4 +1,6 @@
-use crate::wal::config::{MAX_FILE_SIZE, now_millis_str, sanitize_namespace, wal_data_dir};
+use crate::wal::config::{
+    MAX_FILE_SIZE, bump_last_millis, now_millis_str, sanitize_namespace, wal_data_dir,
+};
 use std::cell::RefCell;
 use std::fs;
 use std::path::{Path, PathBuf};
@@ -45,6 +47,18 @@ impl WalPathManager {
 
     pub(crate) fn create_new_file(&self) -> std::io::Result<String> {
         self.ensure_root()?;
+        // Recovery orders WAL files by name. A new file must therefore sort after every
+        // existing one even if the wall clock went backwards since they were created
+        // (the in-process monotonic guard does not survive a restart).
+        if let Ok(dir) = fs::read_dir(&self.root) {
+            let newest = dir
+                .filter_map(|e| e.ok())
+                .filter_map(|e| e.file_name().to_str().and_then(|n| n.parse::<u64>().ok()))
+                .max();
+            if let Some(newest) = newest {
+                bump_last_millis(newest);
+            }
+        }
         let file_name = now_millis_str();
         let path = self.root.join(&file_name);
         #[cfg(walrus_verif)]
